@@ -557,9 +557,11 @@ def replay_case(fam, args):
 
 
 def _work(task):
+    import time
     fam, args = task
+    t0 = time.perf_counter()
     bad = EVAL[fam](**args)
-    return fam, args, bad
+    return fam, args, bad, time.perf_counter() - t0
 
 
 # =================================================================================================
@@ -631,9 +633,8 @@ def _tasks(ctx):
     for n1, e1 in g4:
         for n2, e2 in g4:
             tasks.append(('iso', dict(n1=n1, e1=e1, n2=n2, e2=e2)))
-            if n1 == n2:
-                tasks.append(('iso', dict(n1=n1, e1=e1, n2=n2, e2=e2, nontrivial=True)))
-    ctx.bounds['iso'] = 'all ordered pairs of labelled graphs on 0..4 vertices; nontrivial=True on the equal-order pairs'
+            tasks.append(('iso', dict(n1=n1, e1=e1, n2=n2, e2=e2, nontrivial=True)))
+    ctx.bounds['iso'] = 'all ordered pairs of labelled graphs on 0..4 vertices (equal and different orders) x nontrivial in (False, True)'
     if thorough:
         g5 = _graphs(5, 5)
         for n1, e1 in g5:
@@ -728,6 +729,12 @@ def _nontrivial(fam, args):
     return any(args.get(p, 0) >= 2 for p in ('k', 's', 'd'))
 
 
+def _weight(task):
+    fam, a = task
+    n = max(a.get('n', 0), a.get('N', 0), a.get('n1', 0), a.get('n2', 0))
+    return n * 10 + max(a.get('k', 0), a.get('s', 0), a.get('d', 0)) + (5 if fam in ('ramlb', 'domset', 'kcolor') else 0)
+
+
 def bounded_families(ctx):
     tasks = _tasks(ctx)
     only = getattr(ctx, 'only', None)
@@ -736,10 +743,20 @@ def bounded_families(ctx):
     ctx.rule('C02 bounded: one case = (family, graph(s), parameters, flags); non-trivial iff some input graph has an edge '
              'or a size parameter (k, s, d) is >= 2; distinct by the full argument tuple')
     # heavy tasks first would help balance, but order must stay deterministic: plain chunks, ordered results
+    # schedule the large inputs first (load balance), but report in enumeration order (small inputs first),
+    # so that the recorded example of a violation is the smallest one and the run is deterministic
+    order = sorted(range(len(tasks)), key=lambda i: (-_weight(tasks[i]), i))
     with multiprocessing.get_context('fork').Pool(16) as pool:
-        results = pool.imap(_work, tasks, chunksize=32)
+        results = [None] * len(tasks)
+        for i, r in zip(order, pool.imap(_work, [tasks[i] for i in order], chunksize=16)):
+            results[i] = r
         per_family = {}
-        for fam, args, bad in results:
+        cpu = {}
+        slowest = (0.0, None)
+        for fam, args, bad, dt in results:
+            cpu[fam] = cpu.get(fam, 0.0) + dt
+            if dt > slowest[0]:
+                slowest = (dt, (fam, args))
             key = (fam, tuple(sorted((k, repr(v)) for k, v in args.items())))
             ctx.case(key, nontrivial=_nontrivial(fam, args))
             per_family[fam] = per_family.get(fam, 0) + 1
@@ -748,7 +765,8 @@ def bounded_families(ctx):
                 ctx.violation('{}:{}:{}'.format(fam, variant, kind),
                               '{}({}) : {}'.format(fam, ', '.join('{}={}'.format(k, v) for k, v in args.items()), text),
                               {'fn': 'checks.C02:replay_case', 'args': {'fam': fam, 'args': args}})
-    ctx.section('families', cases=per_family)
+    ctx.section('families', cases=per_family, cpu_seconds={k: round(v, 1) for k, v in cpu.items()},
+                slowest_case={'seconds': round(slowest[0], 2), 'case': slowest[1]})
     ctx.sample({'family': 'tseitin', 'n': 4, 'edges': [(1, 2), (3, 4)], 'charges': [True, False, True, True]})
     ctx.sample({'family': 'kcliquebin', 'n': 3, 'edges': [(1, 3)], 'k': 2, 'symbreak': False})
     ctx.sample({'family': 'subgraph', 'N': 4, 'eG': [(1, 2), (2, 3), (3, 4)], 'k': 3, 'eH': [(1, 3), (2, 3)], 'induced': True, 'symbreak': False})
